@@ -129,7 +129,132 @@ class _World:
         return outcome
 
 
+def _real_digest(world, hashseed):
+    """Digest of the reference fit of ``world`` in a fresh interpreter under a real PYTHONHASHSEED."""
+    import json  # pylint: disable=C0415
+    import os  # pylint: disable=C0415
+    import shutil  # pylint: disable=C0415
+    import subprocess  # pylint: disable=C0415
+    import sys  # pylint: disable=C0415
+    import tempfile  # pylint: disable=C0415
+
+    here = os.path.dirname(os.path.dirname(os.path.abspath(__file__)))
+    scratch = tempfile.mkdtemp(prefix="acsim_hs_")
+    try:
+        path = os.path.join(scratch, "spec.json")
+        with open(path, "w", encoding="utf-8") as fobj:
+            json.dump({"world": world}, fobj)
+        env = dict(os.environ, PYTHONHASHSEED=str(hashseed), VERIF_NO_REEXEC="1")
+        proc = subprocess.run(
+            [sys.executable, "-m", "acsim.realcheck", path, "fit", "1"],
+            capture_output=True, text=True, env=env, cwd=here, timeout=900, check=False,
+        )
+        for line in reversed(proc.stdout.splitlines()):
+            if line.startswith("{"):
+                return json.loads(line)["digest"]
+        return f"no-report rc={proc.returncode} {proc.stderr[-200:]}"
+    finally:
+        shutil.rmtree(scratch, ignore_errors=True)
+
+
+def execute_hashseed(spec):
+    """mode 'hashseed': the same world fitted under two real PYTHONHASHSEED values (real builtin set,
+    n_jobs=1, fresh interpreters); one hash seed is one exactly repeatable execution."""
+    log = EventLog(spec.get("seed"), ["pairsim-hashseed", spec.get("idx")])
+    digests = {str(h): _real_digest(spec["world"], h) for h in spec["hashseeds"]}
+    for h in sorted(digests):
+        log.add("real", "fit+transform", h, "ok", digests[h])
+    violation = None
+    if len(set(digests.values())) > 1:
+        violation = {
+            "property": PROP,
+            "oracle": "hash_seed_independence",
+            "step": -1,
+            "message": f"fitted orders / outputs differ between PYTHONHASHSEED values: {digests}",
+            "signature": {"oracle": "hash_seed_independence"},
+        }
+    return {
+        "fingerprint": log.fingerprint(),
+        "violations": [violation] if violation else [],
+        "stats": {"faults": {"real_hashseed": len(digests)}},
+        "nontrivial": True,
+        "distinct_key": digest([spec["world"], spec["hashseeds"]]),
+        "steps": len(digests),
+        "skipped": 0,
+        "sim_time": log.seq,
+        "world_rejected": {},
+    }
+
+
+def hashseed_runs(prop, seed, tier, n_worlds, hashseeds):
+    """Runs the first ``n_worlds`` generated worlds under each real hash seed (one subprocess per hash
+    seed and chunk, in parallel) and returns (coverage, violations)."""
+    import concurrent.futures as cf  # pylint: disable=C0415
+    import json  # pylint: disable=C0415
+    import os  # pylint: disable=C0415
+    import shutil  # pylint: disable=C0415
+    import subprocess  # pylint: disable=C0415
+    import sys  # pylint: disable=C0415
+    import tempfile  # pylint: disable=C0415
+
+    here = os.path.dirname(os.path.dirname(os.path.abspath(__file__)))
+    scratch = tempfile.mkdtemp(prefix="acsim_hsb_")
+    chunk = max(1, n_worlds // 4)
+    jobs = []
+    for h in hashseeds:
+        for start in range(0, n_worlds, chunk):
+            jobs.append((h, list(range(start, min(n_worlds, start + chunk)))))
+
+    def run(job):
+        h, indices = job
+        path = os.path.join(scratch, f"b_{h}_{indices[0]}.json")
+        with open(path, "w", encoding="utf-8") as fobj:
+            json.dump({"property": prop, "seed": seed, "tier": tier, "indices": indices}, fobj)
+        env = dict(os.environ, PYTHONHASHSEED=str(h), VERIF_NO_REEXEC="1")
+        proc = subprocess.run(
+            [sys.executable, "-m", "acsim.realcheck", path, "batch"],
+            capture_output=True, text=True, env=env, cwd=here, timeout=1800, check=False,
+        )
+        for line in reversed(proc.stdout.splitlines()):
+            if line.startswith("{"):
+                return h, json.loads(line)["digests"]
+        raise RuntimeError(f"hash seed batch failed rc={proc.returncode}: {proc.stderr[-400:]}")
+
+    table: dict = {}
+    try:
+        with cf.ThreadPoolExecutor(max_workers=min(16, len(jobs))) as pool:
+            for h, digests in pool.map(run, jobs):
+                for idx, dig in digests.items():
+                    table.setdefault(idx, {})[str(h)] = dig
+    finally:
+        shutil.rmtree(scratch, ignore_errors=True)
+    violations = []
+    for idx in sorted(table, key=int):
+        if len(set(table[idx].values())) > 1:
+            base = generate(prop, seed, int(idx), tier)
+            seeds = sorted(table[idx], key=lambda h: table[idx][h])
+            spec = {
+                "engine": "pairsim", "mode": "hashseed", "property": PROP, "seed": seed, "idx": int(idx),
+                "tier": tier, "world": base["world"], "hashseeds": [int(seeds[0]), int(seeds[-1])], "ops": [],
+            }
+            res = execute_hashseed(spec)
+            for viol in res["violations"]:
+                violations.append({"idx": int(idx), "violation": viol, "spec": spec})
+    coverage = {
+        "real_hash_seed_runs": {
+            "label": "the reference fit+transform of the first generated worlds repeated in fresh interpreters under real PYTHONHASHSEED values (builtin set, no SimSet, n_jobs=1); one hash seed is one repeatable execution",
+            "worlds": len(table),
+            "hashseeds": list(hashseeds),
+            "executions": len(table) * len(hashseeds),
+            "worlds_with_differing_results": len(violations),
+        }
+    }
+    return coverage, violations
+
+
 def execute(spec):
+    if spec.get("mode") == "hashseed":
+        return execute_hashseed(spec)
     world = spec["world"]
     stats = Stats()
     log = EventLog(spec.get("seed"), ["pairsim", spec.get("idx")])
@@ -367,9 +492,18 @@ class _Engine:
         """Thorough tier: 16 worlds re-fitted in fresh interpreters under 4 real PYTHONHASHSEED values
         with the real multiprocessing.Pool (n_jobs=2); digests must equal the simulated reference."""
         _ = total
-        if tier != "thorough":
-            return {"stub_cross_check": "thorough tier only"}
-        return stub_cross_check(prop, seed, tier, n_worlds=16, hashseeds=(1, 77, 4242, 987654))
+        quick = tier != "thorough"
+        coverage, violations = hashseed_runs(
+            prop, seed, tier, n_worlds=160 if quick else 800, hashseeds=(0, 1, 4242) if quick else (0, 1, 77, 4242, 987654)
+        )
+        if violations:
+            coverage["_violations"] = violations
+        if quick:
+            coverage["stub_cross_check"] = "thorough tier only"
+            return coverage
+        more = stub_cross_check(prop, seed, tier, n_worlds=16, hashseeds=(1, 77, 4242, 987654))
+        coverage.update(more)
+        return coverage
 
 
 def stub_cross_check(prop, seed, tier, n_worlds, hashseeds):
